@@ -169,12 +169,13 @@ def exhaustive_cases():
 
 
 def shape_of(case):
+    """op kinds; protocols as R (simulate_protocol) / Qa, Qr (time course, absolute / relative)"""
     out = []
     for o in case["ops"]:
         if o[0] == "proto":
-            out.append(f"R{len(o[1])}")
+            out.append("R")
         elif o[0] == "ptc":
-            out.append(f"Q{len(o[1])}.{len(o[2])}{'r' if o[3] else 'a'}")
+            out.append("Qr" if o[3] else "Qa")
         else:
             out.append(c04.shape_of({"ops": [o]}))
     return "".join(out)
